@@ -1,4 +1,6 @@
 """C10 - Latch opens exactly when the count is reached and never loses a wake-up."""
+import re
+from ..facts import short
 from ..engine import CALLS, atomic_ops, atomic_field_of, path, unwrap
 from ..cv import check_waits, notify_follows, cv_waits, enclosing_loop_cond_fields
 from ..guards import check_guarded_fields, class_functions, locks_of
@@ -52,44 +54,54 @@ def stable(ctx, ws):
     ctx.ob(rid, ok, mods[0][0].loc(mods[0][2]["st"]) if mods else "gmlc/concurrency/Latch.hpp",
            "counter_ is modified by decrements only", "" if ok else
            "modifications: %s" % [(f.loc(op["st"]), op["name"]) for f, _t, op in mods])
+    for r_ in ctx.fb.records(tmpl=CLS):
+        fl = r_.field("counter_")
+        if fl is None:
+            ctx.broken("Latch::counter_ not found (anchor vanished)")
+        m_ = re.match(r"^std::atomic<(.*)>$", fl["type"])
+        ok = m_ is not None and m_.group(1).strip() in ("int", "long", "long long", "short", "signed char")
+        ctx.ob(rid, ok, "%s:%d" % (short(r_.file), fl.get("line", r_.line)),
+               "counter_ is a signed integer (surplus arrivals take it below zero, where 'counter_ > 0' stays false)",
+               "" if ok else "its type is %s: an arrival after the latch opened wraps it to a huge positive value and the "
+               "latch closes again" % fl["type"], inst=r_.qname)
     for f, top, st in ws:
         lc = enclosing_loop_cond_fields(f, st, CLS)
-        cond = None
+        conds = []          # (function, expr, loop continues / wait goes on while expr is <bool>)
         if lc is not None:
-            cond = unwrap(f, lc[1])
-            want_continue = True     # loop continues while cond is true
+            conds = [(f, e, cont) for e, cont in lc[2]]
         else:
             from ..cv import predicate_lambda
             g = predicate_lambda(ctx, f, st)
             if g is not None:
                 rets = [s for s in g.stmts.values() if s["k"] == "ReturnStmt"]
                 if len(rets) == 1:
-                    cond = unwrap(g, g.children(rets[0])[0])
-                    f = g
-                want_continue = False    # predicate true = stop waiting
+                    conds = [(g, g.children(rets[0])[0], False)]    # predicate true = stop waiting
         ok, detail = False, "cannot find the waiter's condition"
-        if cond is not None:
-            neg = False
-            while cond["k"] == "UnaryOperator" and cond["op"] == "!":
-                neg = not neg
-                cond = unwrap(f, f.children(cond)[0])
-            if cond["k"] == "BinaryOperator":
-                op = cond["op"]
-                l, r = f.children(cond)
-                lp, rp = path(f, l), path(f, r)
-                if rp == "this.counter_" and lp != "this.counter_":
-                    op = {"<": ">", ">": "<", "<=": ">=", ">=": "<="}.get(op, op)
-                if neg:
-                    op = {">": "<=", ">=": "<", "<": ">=", "<=": ">", "==": "!=", "!=": "=="}[op]
-                if want_continue:
-                    ok = op in (">", ">=")
-                else:
-                    ok = op in ("<=", "<")
-                detail = "" if ok else ("the condition uses '%s': once surplus arrivals take the counter below zero the "
-                                        "latch looks closed again and a woken waiter sleeps forever" % cond["op"])
-        ctx.ob(rid, ok, f.loc(st) if st["id"] in f.stmts else f.where,
-               "the waiter waits while counter_ > 0 (inequality, stable under further decrements)", detail,
-               fn=top.label, inst=f.qname)
+        for cf, cond, cont in conds:
+            cond = unwrap(cf, cond)
+            while cond is not None and cond["k"] == "UnaryOperator" and cond["op"] == "!":
+                cont = not cont
+                cond = unwrap(cf, cf.children(cond)[0])
+            ok = False
+            if cond is None or cond["k"] != "BinaryOperator":
+                detail = "cannot read the waiter's condition as a comparison of counter_"
+                break
+            op = cond["op"]
+            l, r = cf.children(cond)
+            lp, rp = path(cf, l), path(cf, r)
+            if rp == "this.counter_" and lp != "this.counter_":
+                op = {"<": ">", ">": "<", "<=": ">=", ">=": "<="}.get(op, op)
+            if not cont:
+                op = {">": "<=", ">=": "<", "<": ">=", "<=": ">", "==": "!=", "!=": "=="}.get(op, op)
+            # normalised: the waiter keeps waiting while `counter_ op k`
+            ok = op in (">", ">=")
+            if not ok:
+                detail = ("the condition uses '%s': once surplus arrivals take the counter below zero the latch looks "
+                          "closed again and a woken waiter sleeps forever" % cond["op"])
+                break
+            detail = ""
+        ctx.ob(rid, ok, f.loc(st), "the waiter waits while counter_ > 0 (inequality, stable under further decrements)",
+               detail, fn=top.label, inst=f.qname)
 
 
 def wake(ctx):
